@@ -526,6 +526,8 @@ impl<'a> Sim<'a> {
         }
         let h = self.handle_of(bt);
         let pre = self.snapshot(bt);
+        // C07: a copy of the exchange as it is before the tick, ticked by the harness on the row of date k
+        let twin = if self.ctx.wants("C07") { self.srv.as_ref().unwrap().with_state(|s| s.backtests.get(&bt).map(|b| b.exchange.clone())) } else { None };
         let r = self.srv.as_ref().unwrap().tick(bt);
         let Some(pre) = pre else {
             ev!(self.ctx, "tick bt={bt} -> {:?}", r.as_ref().map(|_| ()).map_err(|e| e.status));
@@ -553,6 +555,10 @@ impl<'a> Sim<'a> {
                 let di = date_index(k_before, n);
                 let quotes = row_for(ds, di);
                 let within = k_before < n;
+                // C01's clause about the submission clock is stated for clients that stop ticking once
+                // has_next is false: it applies to every tick such a client performs, i.e. while the
+                // server itself has reported has_next = true (for a correct clock the same as k < N)
+                let client_still_ticking = self.bts[h].last_has_next;
                 if !within {
                     self.ctx.bump("f3_tick_past_end");
                 }
@@ -565,6 +571,19 @@ impl<'a> Sim<'a> {
                 if pre.buffer.iter().any(|_| true) && k_before + 1 >= n {
                     self.ctx.bump("probe_submission_on_last_date");
                 }
+                if let (Some(mut twin), true) = (twin, within) {
+                    let (t, a, tr) = twin.tick(&quotes);
+                    let mine = canon_tick(true, &t, &a, if resp.triggered.is_some() { Some(&tr) } else { None });
+                    let theirs = canon_tick(true, &resp.fills, &resp.orders, resp.triggered.as_deref());
+                    rule!(
+                        self.ctx, "C07", "tick-matches-date-k", "tick", mine == theirs,
+                        "tick #{} of backtest {bt} did not do what the exchange does on the quotes of date {} (index {di}): server {theirs}, exchange on that row {mine}",
+                        k_before + 1, ds.dates[di]
+                    );
+                    if !t.is_empty() {
+                        self.ctx.bump("probe_c07_twin_ticks_with_fills");
+                    }
+                }
                 self.trackers[h].on_tick(
                     &mut self.ctx,
                     &pre,
@@ -574,7 +593,7 @@ impl<'a> Sim<'a> {
                     resp.triggered.as_deref(),
                     &post,
                     Some(ds.dates[di]),
-                    within,
+                    client_still_ticking,
                 );
                 self.bts[h].k = k_before + 1;
                 self.bts[h].last_has_next = resp.has_next;
